@@ -19,6 +19,8 @@ def run(tier):
         fams.append(("gotoloop", p, root, None))
     for p, root in gen_clos.selfref_cases():
         fams.append(("selfref", p, root, None))
+    for p, root in gen_clos.retry_cases():
+        fams.append(("retry", p, root, None))
     for p, root in gen_clos.env_cases(rng, 400 if thorough else 80):
         fams.append(("fenv", p, root, None))
     for i in range(2500 if thorough else 400):
@@ -27,7 +29,7 @@ def run(tier):
     progs = lsem.number(fams)
     verd, cov, allv, allo, stats = lsem.run_families(
         PROP, tier, progs,
-        "capture x exit family: closure created in {block, while, repeat, repeat with captured local in the condition, numeric for, generic for, called function} x scope left by {fall-through, break, goto out, goto continue, return, tail call, error caught by pcall (error()/runtime fault/after a nested pcall), error caught by xpcall, coroutine yield then abandon, coroutine death, coroutine error} x sharing {getter, incrementer+getter, closure over closure, modified after capture}, all %d valid combinations, with register churn before use; fenv programs; random programs with closures" % len(cases),
+        "capture x exit family: closure created in {block, while, repeat, repeat with captured local in the condition, numeric for, generic for, called function} x scope left by {fall-through, break, goto out, goto continue, return, tail call, error caught by pcall (error()/runtime fault/after a nested pcall), error caught by xpcall, coroutine yield then abandon, coroutine death, coroutine error()/runtime fault} x sharing {getter, incrementer+getter, closure over closure, modified after capture}, all %d valid combinations, with register churn before use, plus the same with the captured local in the function's first register; capturing functions retried after a failed protected call / dead coroutine from the same stack position with nothing else captured; fenv programs; random programs with closures" % len(cases),
         [], t0, max_steps=30000, extra_cov={"capture_exit_combinations": len(cases)})
     rc = verd.finish()
     cov["known_findings_hit"] = sorted(verd.known_hit)
